@@ -47,7 +47,7 @@ func decodeNflog(b []byte) []NflogEntry {
 		if e.Entry == nil || e.Entry.Receiver == nil {
 			continue
 		}
-		out = append(out, NflogEntry{GroupKey: string(e.Entry.GroupKey), Receiver: e.Entry.Receiver.GroupName, Idx: int(e.Entry.Receiver.Idx), Found: true,
+		out = append(out, NflogEntry{GroupKey: string(e.Entry.GroupKey), Receiver: e.Entry.Receiver.GroupName, Idx: IntegrationID(e.Entry.Receiver.Integration, int(e.Entry.Receiver.Idx)), Found: true,
 			Timestamp: e.Entry.Timestamp.AsTime(), Firing: e.Entry.FiringAlerts, Resolved: e.Entry.ResolvedAlerts})
 	}
 }
